@@ -269,8 +269,13 @@ func (w *inotify) AddWith(path string, opts ...addOpt) error {
 
 func (w *inotify) register(path string, flags uint32, recurse bool) error {
 	return w.watches.updatePath(path, func(existing *watch) (*watch, error) {
+		// Always add to the mask of an existing watch instead of replacing it:
+		// the file may already be watched under another name (symlink, hard
+		// link), which we only find out from the watch descriptor we get back.
+		// Does nothing for a new watch.
+		flags |= unix.IN_MASK_ADD
 		if existing != nil {
-			flags |= existing.flags | unix.IN_MASK_ADD
+			flags |= existing.flags
 		}
 
 		wd, err := unix.InotifyAddWatch(w.fd, path, flags)
@@ -286,12 +291,13 @@ func (w *inotify) register(path string, flags uint32, recurse bool) error {
 		}
 
 		if e, ok := w.watches.wd[uint32(wd)]; ok {
-			if e == existing {
-				// Remember everything that was asked for so far, so that
-				// it's kept when the path is added again after it came to
-				// refer to a different file.
-				e.flags = flags
+			// Remember everything that was asked for so far, so that it's
+			// kept when the path is added again after it came to refer to a
+			// different file.
+			if e != existing { // Other name for this file; may be a link.
+				flags &^= unix.IN_DONT_FOLLOW
 			}
+			e.flags |= flags
 			return e, nil
 		}
 
